@@ -527,8 +527,17 @@ func (a *analyzer) bundleLiterals() (sharesM, sharesT []kvb) {
 			shared := false
 			if tsExpr != nil && bv != nil {
 				ast.Inspect(tsExpr, func(n ast.Node) bool {
-					if e, ok := n.(ast.Expr); ok && a.isBundleField(e, bv, a.tsField) {
-						shared = true
+					if e, ok := n.(ast.Expr); ok {
+						// token identity cannot flow through a string (parseToks(b.ts.Header())
+						// builds fresh tokens): do not look inside string-typed sub-expressions
+						if tv, ok := a.inf.Types[e]; ok && tv.Type != nil {
+							if bt, ok := tv.Type.Underlying().(*types.Basic); ok && bt.Info()&types.IsString != 0 {
+								return false
+							}
+						}
+						if a.isBundleField(e, bv, a.tsField) {
+							shared = true
+						}
 					}
 					return true
 				})
